@@ -1150,14 +1150,21 @@ pub fn drive_c16(a: &Args) {
             let u = mgr.union(ex, ey);
             let u2 = mgr.union_list(vec![ey, ex]);
             let ures: Vec<bool> = uw.iter().map(|w| mgr.str_in_re(&SmtString::from(w.clone()), u)).collect();
-            (res, std::ptr::eq(ex, ey), ures, std::ptr::eq(u, u2) || uw.is_empty())
+            // the trees of the two real terms (for the structural comparison with the transcribed test)
+            let mut budget = 80i64;
+            let shapes = match (crate::ctor::shape(ex, &mut budget), crate::ctor::shape(ey, &mut budget)) {
+                (Some(a), Some(b)) => vec![a, b],
+                _ => vec![],
+            };
+            (res, std::ptr::eq(ex, ey), ures, std::ptr::eq(u, u2) || uw.is_empty(), shapes)
         });
         match r {
-            Ok((res, same, ures, _)) => {
+            Ok((res, same, ures, _, shapes)) => {
                 if res {
                     ntrue += 1;
                 }
-                out.emit(json!({"op":"incl","id":id,"fam":fam,"a":x.json(),"b":y.json(),"res":res,"same":same,"uwords":uw,"ures":ures}));
+                out.emit(json!({"op":"incl","id":id,"fam":fam,"a":x.json(),"b":y.json(),"res":res,"same":same,"uwords":uw,"ures":ures,
+                    "shapes": shapes}));
             }
             Err(msg) => {
                 out.emit(json!({"op":"panic","id":id,"fam":fam,"a":x.json(),"b":y.json(),"where":"included_in","msg":msg}));
